@@ -409,7 +409,7 @@ pub fn run_root<R: 'static>(mk: impl FnOnce() -> Pin<Box<dyn Future<Output = R> 
             let g = lock();
             for t in 0..tasks.len() {
                 if e.alive[t] && e.notified[t] {
-                    opts.push(Opt { ent: t as u32, class: 0 });
+                    opts.push(Opt { ent: t as u32, class: 0, key: 0 });
                     acts.push(Act::Poll(t as u32, false));
                 }
             }
@@ -418,7 +418,7 @@ pub fn run_root<R: 'static>(mk: impl FnOnce() -> Pin<Box<dyn Future<Output = R> 
                 if gt.state == GateState::Pending {
                     pending += 1;
                     if draining || g.dep_ok(gt.ev, gt.occ) {
-                        opts.push(Opt { ent: gt.task, class: 1 });
+                        opts.push(Opt { ent: gt.task, class: 1, key: ((gt.ev as u64) << 32) | gt.occ as u64 });
                         acts.push(Act::Release(gi as u32));
                     }
                 }
@@ -429,13 +429,13 @@ pub fn run_root<R: 'static>(mk: impl FnOnce() -> Pin<Box<dyn Future<Output = R> 
             if !draining && fault_pm > 0 {
                 for t in 0..tasks.len() {
                     if e.alive[t] && !e.notified[t] {
-                        opts.push(Opt { ent: t as u32, class: 2 });
+                        opts.push(Opt { ent: t as u32, class: 2, key: 0 });
                         acts.push(Act::Poll(t as u32, true));
                     }
                 }
                 for (gi, gt) in e.gates.iter().enumerate() {
                     if gt.state == GateState::Pending {
-                        opts.push(Opt { ent: gt.task, class: 2 });
+                        opts.push(Opt { ent: gt.task, class: 2, key: 0 });
                         acts.push(Act::SWake(gi as u32));
                     }
                 }
